@@ -65,6 +65,10 @@ def make_con(d, counter):
             return np.array([np.sum(x ** 2) - d["r"] ** 2, c @ x - d["b"]])
         if kind == "sin":
             return float(np.sin(x[0] * d["a"]) + x[-1] - d["b"])
+        if kind == "quartic":
+            return float(np.sum(x ** 4) - d["r"] ** 4)
+        if kind == "l1":
+            return float(np.sum(np.abs(x - c)) - d["r"])
         raise ValueError(kind)
 
     def con(x, *args):
@@ -197,7 +201,7 @@ def gen(rng, focus="general"):
             if m == 1 and rng.random() < 0.3:
                 cons[-1]["flat"] = True
         else:
-            kind = ["ball", "parab", "plane", "vec", "sin"][int(rng.integers(5))]
+            kind = ["ball", "parab", "plane", "vec", "sin", "quartic", "l1"][int(rng.integers(7))]
             fd = {"kind": kind, "c": [r(v) for v in rng.uniform(-1, 1, n)], "r": r(rng.uniform(0.5, 3)),
                   "a": r(rng.uniform(0.5, 3)), "b": r(rng.uniform(-1, 1))}
             if rng.random() < (0.25 if focus in ("nan", "C08") else 0.05):
